@@ -80,9 +80,17 @@ def selection(ck, ctx):
     for bb, t in [x for x in info["lookups"] if x not in info["mt"]]:
         ne, se = C.option_edges(ctx, b, lambda s, bb=bb: s[0] == "call" and s[1] == "work::Work::lookup" and s[3] == bb)
 
-        def pred_same(e):
+        mt_bbs = {x for x, _ in info["mt"]}
+
+        def pred_same(e, bb=bb):
+            # `Some(<this target>) == <manifest target>`: one side wraps this lookup's result, the other is the manifest-name lookup
             e = strip(e)
-            return e[0] == "call" and e[1].endswith("PartialEq>::eq") and "Option" in e[1]
+            if not (e[0] == "call" and e[1].endswith("PartialEq>::eq") and "Option" in e[1] and len(e[2]) == 2):
+                return False
+            sides = [strip(x) for x in e[2]]
+            has_tgt = [any(c[1] == "work::Work::lookup" and c[3] == bb for c in calls_in(s_)) and any(y[0] == "agg" and y[3] == "Some" for y in walk(s_)) for s_ in sides]
+            has_mt = [any(c[1] == "work::Work::lookup" and c[3] in mt_bbs for c in calls_in(s_)) for s_ in sides]
+            return (has_tgt[0] and has_mt[1]) or (has_tgt[1] and has_mt[0])
 
         g_same = C.bool_gate_edges(ctx, b, pred_same)
         starts = [tt for (x, lab) in se for tt in cfg.edge_targets(x, lab)]
